@@ -511,8 +511,9 @@ char *snoopy_configfile_syslog_value_cleanup (char *confVal)
     // Convert to upper case
     snoopy_util_string_toUpper(confVal);
 
-    // Remove LOG_ prefix
-    confValCleaned = snoopy_configfile_syslog_value_remove_prefix(confVal);
+    // The optional LOG_ prefix is removed by snoopy_util_syslog_convert{Facility,Level}ToInt().
+    // (Removing it here as well made "LOG_LOG_USER" a valid facility.)
+    confValCleaned = confVal;
 
     return confValCleaned;
 }
